@@ -125,6 +125,48 @@ func (c20) step(t []string) string {
 		return btoa(typ.IsZero(atoi(t[1])))
 	case "tern":
 		return itoa(typ.Tern(atoi(t[1]) != 0, atoi(t[2]), atoi(t[3])))
+	case "zero":
+		return itoa(typ.Zero[int]())
+	case "zeroof":
+		return itoa(typ.ZeroOf(atoi(t[1])))
+	case "iszerom": // a comparable type WITH an IsZero method (true for even fields)
+		return btoa(typ.IsZero(zeroer{atoi(t[1])}))
+	case "terncast": // terncast <cond> <kind> <v> <ifFalse>: kind 0 = the dynamic type is int (assertion succeeds), 1 = it is string
+		var value any = atoi(t[3])
+		if atoi(t[2]) == 1 {
+			value = "x"
+		}
+		return itoa(typ.TernCast(atoi(t[1]) != 0, value, atoi(t[4])))
+	case "isnil": // 0 any(nil), 1 any(5), 2 error(nil), 3 a typed nil pointer inside an interface, 4 IsNil[*int](nil), 5 IsNil[[]int](nil), 6 a non-nil error
+		switch atoi(t[1]) {
+		case 0:
+			return btoa(typ.IsNil[any](nil))
+		case 1:
+			return btoa(typ.IsNil[any](5))
+		case 2:
+			return btoa(typ.IsNil[error](nil))
+		case 3:
+			var p *int
+			return btoa(typ.IsNil[any](p))
+		case 4:
+			return btoa(typ.IsNil[*int](nil))
+		case 5:
+			return btoa(typ.IsNil[[]int](nil))
+		default:
+			return btoa(typ.IsNil[error](badOp2{}))
+		}
+	case "ref": // ref <v>: *Ref(v), and a write through the pointer does not touch the argument
+		v := atoi(t[1])
+		p := typ.Ref(v)
+		got := *p
+		*p = got + 1
+		return itoa(got) + " " + itoa(v)
+	case "derefzero": // derefzero <isnil> <v>
+		if atoi(t[1]) != 0 {
+			return itoa(typ.DerefZero((*int)(nil)))
+		}
+		v := atoi(t[2])
+		return itoa(typ.DerefZero(&v))
 	}
 	if len(t) < 3 {
 		return bad()
@@ -192,3 +234,12 @@ func (c20) step(t []string) string {
 	}
 	return bad()
 }
+
+// zeroer: a comparable type with an IsZero method (even fields count as zero)
+type zeroer struct{ a int }
+
+func (z zeroer) IsZero() bool { return z.a%2 == 0 }
+
+type badOp2 struct{}
+
+func (badOp2) Error() string { return "e" }
